@@ -17,6 +17,13 @@
 //!                  recognised or rejected with an error, never a panic (ImplVsSpec, signature =
 //!                  panic site); when the scanner still yields a plane, the implementation's
 //!                  outcome is compared with `recognizePlane` of that plane (ImplVsModel).
+//!   (e) scanner    on EVERY text given to the recogniser (drawings, corpus, corruptions, arbitrary
+//!                  text, degenerate geometry, probes): the real scanner (`scan` + `Canvas::plane`)
+//!                  against the scanner model `scanText` (Dmn/Model/Canvas.lean, `(c19 scan <text>)`):
+//!                  the plane cell by cell with region numbers, region rectangles, region texts and
+//!                  the information item name, or the error with its payload (ImplVsModel); and
+//!                  `build` against the composed `recognizeText`.  For every generated table the
+//!                  driver also evaluates `scanInvertsDraw` (scanner model ∘ draw = planeOf).
 
 use crate::model::Model;
 use crate::report::{Kind, Report};
@@ -550,6 +557,15 @@ struct PlaneObs {
   display: String,
   texts: Sexp,
   cells: Sexp,
+  /// the cells with the regions' rectangles: `(r id left top right bottom (s text))`
+  scells: Sexp,
+}
+
+/// The rectangle `(left,top;right,bottom)` in the `Debug` text of a region cell
+/// (`Region(7, (4,2;26,5), "…")`).
+fn rect_of_debug(dbg: &str) -> Vec<Sexp> {
+  let inner = dbg.split_once(", (").and_then(|x| x.1.split_once(')')).map(|x| x.0).unwrap_or("");
+  inner.split(|c| c == ',' || c == ';').map(|n| Sexp::atom(n.trim())).collect()
 }
 
 /// Observes a plane through its public methods (`Display`, `height`, `row_len`,
@@ -560,14 +576,21 @@ macro_rules! observe_plane {
     let display = format!("{}", plane);
     let mut rows = vec![Sexp::atom("texts")];
     let mut cells = vec![];
+    let mut scells = vec![];
     for r in 0..plane.height() {
       let mut row = vec![];
       let mut crow = vec![];
+      let mut srow = vec![];
       for c in 0..plane.row_len(r) {
         match (plane.region_number(r, c), plane.region_text(r, c)) {
           (Ok(n), Ok(t)) => {
             row.push(Sexp::str(&t));
             crow.push(Sexp::list(vec![Sexp::atom("r"), Sexp::int(n), Sexp::str(&t)]));
+            let dbg = plane.cell(r, c).map(|x| format!("{:?}", x)).unwrap_or_default();
+            let mut sc = vec![Sexp::atom("r"), Sexp::int(n)];
+            sc.extend(rect_of_debug(&dbg));
+            sc.push(Sexp::str(&t));
+            srow.push(Sexp::list(sc));
           }
           _ => {
             row.push(Sexp::atom("-"));
@@ -582,13 +605,15 @@ macro_rules! observe_plane {
               "VerticalDoubleCrossing" => "vx",
               _ => "??",
             }));
+            srow.push(crow.last().cloned().unwrap());
           }
         }
       }
       rows.push(Sexp::list(row));
       cells.push(Sexp::list(crow));
+      scells.push(Sexp::list(srow));
     }
-    PlaneObs { display, texts: Sexp::list(rows), cells: Sexp::list(cells) }
+    PlaneObs { display, texts: Sexp::list(rows), cells: Sexp::list(cells), scells: Sexp::list(scells) }
   }};
 }
 
@@ -664,6 +689,132 @@ fn normalise_model_outcome(m: &str) -> String {
     return format!("(panic {})", site_file(site));
   }
   m.to_string()
+}
+
+
+// ------------------------------------------------------------------------------------------------
+// the scanner (canvas.rs) against its model (Dmn/Model/Canvas.lean, `(c19 scan <text>)`)
+
+/// What the real scanner (`scan` + `Canvas::plane`) did with a text.
+enum ScanObs {
+  /// `(ok <opt name> (<scell>…)…)`, the form of the model's answer
+  Plane(String),
+  /// the message of the `Err(..)`
+  Error(String),
+  /// the panic site
+  Panic(String),
+}
+
+fn scan_obs(o: &ImplObs) -> ScanObs {
+  match &o.scanned {
+    Ok((p, name)) => {
+      let mut v = vec![Sexp::atom("ok"), opt_sexp(name)];
+      v.extend(p.scells.as_list().unwrap_or(&[]).iter().cloned());
+      ScanObs::Plane(Sexp::list(v).to_string())
+    }
+    Err(m) if m.starts_with(PANIC_MARK) => ScanObs::Panic(m[PANIC_MARK.len()..].to_string()),
+    Err(m) => ScanObs::Error(m.clone()),
+  }
+}
+
+fn scan_error_kind(msg: &str) -> &'static str {
+  if msg.contains("expected characters not found") {
+    "notFound"
+  } else if msg.contains("is not allowed in") {
+    "notAllowed"
+  } else if msg.contains("rectangle is not closed") {
+    "notClosed"
+  } else if msg.contains("region not found") {
+    "regionNotFound"
+  } else {
+    "other"
+  }
+}
+
+fn chars_of(s: &Sexp) -> Vec<char> {
+  str_of(s).chars().collect()
+}
+
+/// The message of the `Err(..)` a scanner error of the model stands for (errors.rs:69-83):
+/// `e` = `(error <kind> <payload>…)`.
+fn scan_error_message(e: &[Sexp]) -> Option<String> {
+  let num = |i: usize| e.get(i).and_then(|x| x.as_atom()).and_then(|a| a.parse::<u64>().ok());
+  match e.get(1)?.as_atom()? {
+    "notFound" => Some(format!("RecognizerError: expected characters not found: {:?}", chars_of(e.get(2)?))),
+    "notAllowed" => {
+      let ch = char::from_u32(num(2)? as u32)?;
+      Some(format!("RecognizerError: character '{}' is not allowed in {:?}", ch, chars_of(e.get(3)?)))
+    }
+    "notClosed" => Some(format!("RecognizerError: rectangle is not closed, start point: ({},{}), end point: ({},{})", num(2)?, num(3)?, num(4)?, num(5)?)),
+    "regionNotFound" => Some(format!("RecognizerError: region not found, rect: ({},{};{},{})", num(2)?, num(3)?, num(4)?, num(5)?)),
+    _ => None,
+  }
+}
+
+/// Compares the real scanner's result and the outcome of `build` with the answer of
+/// `(c19 scan <text>)`: `((scanned <scan>) (recognized <outcome>))`.
+fn compare_scan(rep: &mut Report, text: &str, obs: &ScanObs, built: &str, ans: &str) {
+  let parts = match split_top(ans) {
+    Some(p) if p.len() == 2 => p,
+    _ => {
+      rep.disagree(Kind::ImplVsModel, "scanner", "driver-error (scan)", text, "", &ans.chars().take(200).collect::<String>());
+      return;
+    }
+  };
+  let scanned = parts[0].as_list().and_then(|l| l.get(1).cloned()).unwrap_or_else(|| Sexp::atom("?"));
+  let sl = scanned.as_list().map(|l| l.to_vec()).unwrap_or_default();
+  let model_kind = match sl.first().and_then(|x| x.as_atom()) {
+    Some("ok") => "plane".to_string(),
+    Some("error") => format!("error {}", sl.get(1).and_then(|x| x.as_atom()).unwrap_or("?")),
+    Some("panic") => "panic".to_string(),
+    _ => "?".to_string(),
+  };
+  rep.hit(&format!("scanner-model:{}", model_kind));
+  let impl_kind = match obs {
+    ScanObs::Plane(_) => "plane".to_string(),
+    ScanObs::Error(m) => format!("error {}", scan_error_kind(m)),
+    ScanObs::Panic(_) => "panic".to_string(),
+  };
+  let short = |s: &str| s.chars().take(4000).collect::<String>();
+  if impl_kind != model_kind {
+    let seen = match obs {
+      ScanObs::Plane(p) => short(p),
+      ScanObs::Error(m) => m.clone(),
+      ScanObs::Panic(site) => format!("panic at {}", site),
+    };
+    rep.disagree(Kind::ImplVsModel, "scanner", &format!("scanner differs from its model: impl {} / model {}", impl_kind, model_kind), text, &seen, &short(&scanned.to_string()));
+  } else {
+    match obs {
+      ScanObs::Plane(p) => {
+        if *p != scanned.to_string() {
+          rep.disagree(Kind::ImplVsModel, "scanner", "scanned plane (cells, region numbers, rectangles, texts, information item name) differs from the scanner model", text, &short(p), &short(&scanned.to_string()));
+        }
+      }
+      ScanObs::Error(m) => {
+        let want = scan_error_message(&sl).unwrap_or_default();
+        if *m != want {
+          rep.disagree(Kind::ImplVsModel, "scanner", &format!("scanner error differs from the scanner model in its payload ({})", model_kind), text, m, &want);
+        }
+      }
+      ScanObs::Panic(_) => {}
+    }
+  }
+  // the composed pipeline text -> table (`recognizeText`) against `build`
+  let rec = parts[1].as_list().and_then(|l| l.get(1).cloned()).unwrap_or_else(|| Sexp::atom("?"));
+  let rl = rec.as_list().map(|l| l.to_vec()).unwrap_or_default();
+  let want = match rl.first().and_then(|x| x.as_atom()) {
+    Some("scan-error") => {
+      let msg = rl.get(1).and_then(|e| e.as_list()).and_then(scan_error_message).unwrap_or_default();
+      format!("(error {})", err_name(&msg))
+    }
+    Some("scan-panic") => "(panic recognizer/src/canvas.rs)".to_string(),
+    _ => normalise_model_outcome(&rec.to_string()),
+  };
+  let want = if want.starts_with("(panic recognizer/src/canvas.rs") && built.starts_with("(panic recognizer/src/plane.rs") { built.to_string() } else { want };
+  if want != built {
+    let head = |s: &str| s.chars().take(40).collect::<String>().split(' ').take(2).collect::<Vec<_>>().join(" ");
+    rep.disagree(Kind::ImplVsModel, "scanner", &format!("build differs from recognizeText: impl {} / model {}", head(built), head(&want)), text, &short(built), &short(&want));
+  }
 }
 
 // ------------------------------------------------------------------------------------------------
@@ -1015,12 +1166,13 @@ pub fn run(cfg: &Cfg) -> Report {
 
   let mut drawings: Vec<(usize, String)> = vec![];
   let mut plane_reqs: Vec<(String, String, String)> = vec![]; // (request, text, implementation outcome)
+  let mut scan_cases: Vec<(String, ScanObs, String)> = vec![]; // (text, the scanner's result, outcome of build)
 
   for (ci, case) in cases.iter().enumerate() {
     let t = &case.tbl;
     let req = &reqs2[ci];
     let (parts, ans) = match (&laid[ci], split_top(&ans2[ci])) {
-      (Some(p), Some(a)) if a.len() == 6 => (p, a),
+      (Some(p), Some(a)) if a.len() == 7 => (p, a),
       _ => {
         rep.disagree(Kind::ImplVsModel, "driver", "driver-error", &reqs1[ci], "", &format!("{} / {}", ans1[ci], ans2[ci]));
         continue;
@@ -1055,12 +1207,20 @@ pub fn run(cfg: &Cfg) -> Report {
     if !wf {
       rep.disagree(Kind::ImplVsModel, "driver", "generated table is not well-formed", req, "", &ans[5].to_string());
     }
+    // the scanner model reads the model's drawing back as the plane the drawing denotes (the
+    // hypothesis of recognize_text_roundtrip_partial, evaluated for every generated table)
+    if ans[6].to_string() != "(scan-inverts-draw true)" {
+      rep.disagree(Kind::ImplVsModel, "scanner", &format!("the scanner model does not read draw t back as planeOf t ({})", t.orient), &text, "", &ans[6].to_string());
+    } else {
+      rep.hit("scan-inverts-draw:true");
+    }
     let model_plane = str_of(&ans[1].as_list().unwrap()[1]);
     let model_texts = ans[2].to_string();
     let model_recognized = ans[4].as_list().map(|l| l[1].to_string()).unwrap_or_default();
     let expected_outcome = format!("(ok {})", expected_spec);
 
     let obs = run_impl(&text);
+    scan_cases.push((text.clone(), scan_obs(&obs), impl_outcome(&obs)));
     if let Some((site, msg)) = &obs.panic {
       rep.disagree(Kind::ImplVsSpec, "total", &panic_signature(site, msg), &text, &format!("panic at {}: {}", site, msg), "Ok or Err");
       continue;
@@ -1197,6 +1357,7 @@ pub fn run(cfg: &Cfg) -> Report {
     rep.hit("corpus");
     {
       let obs = run_impl(body);
+      scan_cases.push((body.clone(), scan_obs(&obs), impl_outcome(&obs)));
       if let Some((site, msg)) = &obs.panic {
         rep.disagree(Kind::ImplVsSpec, "total", &panic_signature(site, msg), body, &format!("panic at {}: {}", site, msg), "Ok or Err");
       }
@@ -1271,6 +1432,7 @@ pub fn run(cfg: &Cfg) -> Report {
     rep.hit(&format!("corruption:{}", what.split('+').next().unwrap_or("")));
     {
       let obs = run_impl(text);
+      scan_cases.push((text.clone(), scan_obs(&obs), impl_outcome(&obs)));
       if let Some((site, msg)) = &obs.panic {
         rep.hit("outcome:panic");
         rep.disagree(Kind::ImplVsSpec, "total", &panic_signature(site, msg), text, &format!("panic at {}: {}", site, msg), "Ok or Err");
@@ -1325,8 +1487,15 @@ pub fn run(cfg: &Cfg) -> Report {
       );
     }
   }
+  // the scanner and the whole pipeline against the scanner model, on every text given to the recogniser
+  let sreqs: Vec<String> = scan_cases.iter().map(|x| format!("(c19 scan {})", Sexp::str(&x.0))).collect();
+  let sans = model.ask_batch(&sreqs);
+  for ((text, obs, built), ans) in scan_cases.iter().zip(sans.iter()) {
+    compare_scan(&mut rep, text, obs, built, ans);
+  }
+  rep.extra.insert("texts_scanned_by_the_scanner_model".into(), json!(scan_cases.len()));
   rep.model_requests = model.requests;
-  rep.notes.push("partial: the scanner (recognizer/src/canvas.rs) is not modelled; it is tied to planeOf / draw by the 'plane' family (scanned plane = planeOf t, region numbers and texts) and to the hypothesis of plane_no_panic_partial by the 'scanned-plane:(scanner-shape …)' buckets".into());
+  rep.notes.push("partial: the scanner (recognizer/src/canvas.rs) is modelled (Dmn/Model/Canvas.lean) and proved panic-free for every text; it is tied to the code by the 'scanner' family (real scanner = scanText on every text: cells, region numbers, rectangles, texts, name, error payloads) and to planeOf / draw by the 'plane' family and by scanInvertsDraw on every generated table; that the scanner inverts draw for ALL tables is checked, not proved".into());
   rep.extra.insert("drawings".into(), json!(cases.len()));
   rep.extra.insert("corrupted_or_arbitrary_texts".into(), json!(texts.len()));
   rep.extra.insert("scanned_planes_checked_against_model".into(), json!(plane_reqs.len()));
